@@ -12,6 +12,6 @@ CHECKS['C17'] = {
     'assumptions': [],
     'units': [
         unit('copier', 'crunchrun_c17', '^TestVerifC17', {'shards': 16, 'checks': 400}, {'shards': 16, 'checks': 8000, 'timeout': 1500},
-             crash_is_violation=True),
+             crash_is_violation=True, env={'GOTRACEBACK': 'single'}),
     ],
 }
